@@ -53,8 +53,8 @@ func (f *IntegerLength) Call(s *slip.Scope, args slip.List, depth int) (result s
 	case *slip.Bignum:
 		bi := (*big.Int)(ta)
 		if bi.Sign() < 0 {
-			bi = bi.Add(bi, big.NewInt(1))
-			bi = bi.Neg(bi)
+			var z big.Int
+			bi = z.Not(bi)
 		}
 		result = slip.Fixnum(bi.BitLen())
 	default:
